@@ -26,6 +26,7 @@ import (
 	"fmt"
 	"math/rand"
 	"os"
+	"reflect"
 	"sort"
 	"strconv"
 	"strings"
@@ -264,8 +265,12 @@ func (w *world) state(i int) string {
 		}
 		ts = append(ts, strconv.Itoa(id))
 	}
-	return fmt.Sprintf("%d=%d,%d,%d,%d,%d,%d,%d,%d|%s|%s|%s|%s|%s|%s", i, b.VerifMaxSleep(), b.GetTotalSleep(), b.VerifExcludedSleep(),
-		b.ErrorsNum(), ctxID, varsID, killed, b.GetTotalBackoffTimes(), strings.Join(errs, "."), mapStr(b.GetBackoffSleepMS()), mapStr(b.GetBackoffTimes()),
+	keep := b.VerifKeepGoing()
+	if keep < 0 {
+		keep = 0
+	}
+	return fmt.Sprintf("%d=%d,%d,%d,%d,%d,%d,%d,%d,%d|%s|%s|%s|%s|%s|%s", i, b.VerifMaxSleep(), b.GetTotalSleep(), b.VerifExcludedSleep(),
+		b.ErrorsNum(), ctxID, varsID, killed, b.GetTotalBackoffTimes(), keep, strings.Join(errs, "."), mapStr(b.GetBackoffSleepMS()), mapStr(b.GetBackoffTimes()),
 		strings.Join(cs, "."), strings.Join(ts, "."), b.String())
 }
 
@@ -417,6 +422,9 @@ func (w *world) exec(o op) (extra string, res string, touched []int) {
 		if cfgs[o.a].c.Base() != o.b {
 			res = "base-wrong"
 		}
+	case "KG": // KeepGoingWhenKilled (called by name: older trees do not have it and the generator then never emits KG)
+		reflect.ValueOf(w.bos[o.a]).MethodByName("KeepGoingWhenKilled").Call(nil)
+		touched = []int{o.a}
 	case "SC":
 		w.bos[o.a].SetCtx(w.ctxs[o.b])
 		w.boCtx[o.a] = o.b
@@ -626,6 +634,9 @@ func (g *gen) randomOp() {
 	case y == 4:
 		g.do(op{k: "MN", a: i, b: r.Intn(2)})
 		return
+	case hasKG && (y == 5 || (g.class == "cancelkill" && y < 9)):
+		g.do(op{k: "KG", a: i})
+		return
 	}
 	switch {
 	case x < 55 || (!treeish && x < 75):
@@ -745,6 +756,8 @@ func expoLines(seed int64) {
 	}
 }
 
+var hasKG = reflect.ValueOf(&retry.Backoffer{}).MethodByName("KeepGoingWhenKilled").IsValid()
+
 func runSeq(seq int, class string, seed int64, nops int) {
 	r := rand.New(rand.NewSource(seed))
 	lim := limits[r.Intn(len(limits))]
@@ -794,6 +807,22 @@ func runSeq(seq int, class string, seed int64, nops int) {
 			g.backoff(0, k)
 		}
 		nops = 0
+	} else if class == "cancelkill" && hasKG && r.Intn(3) == 0 {
+		// a marked back-offer under a raised kill flag keeps backing off until its budget; forks and clones inherit
+		v := g.newVars()
+		g.do(op{k: "N", a: []int{100, 250, 400}[r.Intn(3)], b: v, c: 0})
+		g.do(op{k: "KG", a: 0})
+		g.do(op{k: "K", a: v, b: 1 + r.Intn(3)})
+		if r.Intn(2) == 0 {
+			g.do(op{k: "F", a: 0})
+		} else {
+			g.do(op{k: "C", a: 0})
+		}
+		for n := 0; n < 12 && !g.dead; n++ {
+			if res := g.backoff(r.Intn(2), []int{0, 1, 4, 2}[r.Intn(4)]); !strings.HasPrefix(res, "ok") {
+				break
+			}
+		}
 	} else {
 		g.newRoot()
 	}
